@@ -623,7 +623,7 @@ class Timings:
                 s = offset_max_seq_out - max_seq_in
 
                 # NOTE! +1, because, for example, when offset_max_seq_out = 0, and max_seq_in = 0, we need to buffer 1 step.
-                max_s = s.max() + 1
+                max_s = max(s.max() + 1, 1)  # At least one cell: the default output is read even if no real output ever is
 
                 # Store min buffer size
                 min_buffer_sizes[n][input_name] = max_s
